@@ -56,7 +56,10 @@ Uses(m) == (SUBSET (1..m)) \ {{}}
 
 \* OR forms.  dp[s] = least cost (term gates + one join gate per use) of terms covering at least
 \* s[j] in every output j, using only implicants.  States: tuples of subsets of the on-sets.
-OrStates(fs) == [1..Len(fs) -> SUBSET (UNION {fs[j] : j \in 1..Len(fs)})]
+OrStates(fs) ==      \* tuples of subsets of the respective on-sets (1 to 3 outputs)
+  CASE Len(fs) = 1 -> {<<a>> : a \in SUBSET fs[1]}
+    [] Len(fs) = 2 -> {<<a, b>> : a \in SUBSET fs[1], b \in SUBSET fs[2]}
+    [] Len(fs) = 3 -> {<<a, b, c>> : a \in SUBSET fs[1], b \in SUBSET fs[2], c \in SUBSET fs[3]}
 OrStep(fs, joinc, dp, t) ==
   LET m == Len(fs)
       ok == {j \in 1..m : t.sat # {} /\ t.sat \subseteq fs[j]}      \* outputs this term may serve
@@ -67,7 +70,7 @@ OrStep(fs, joinc, dp, t) ==
                        : U \in (SUBSET ok) \ {{}}})])
 OrOpt(n, fs, cands, joinc) ==
   LET m == Len(fs)
-      states == {s \in OrStates(fs) : \A j \in 1..m : s[j] \subseteq fs[j]}
+      states == OrStates(fs)
       dp0 == Concrete([s \in states |-> IF \A j \in 1..m : s[j] = {} THEN 0 ELSE INF])
       dp == SQX!FoldLeft(LAMBDA acc, t : OrStep(fs, joinc, acc, t), dp0, SetAsSeq(cands))
       nonzero == Cardinality({j \in 1..m : fs[j] # {}})
